@@ -11,7 +11,7 @@ from ..engine import viol
 LEVEL = "exploration"
 RULE = ("(i) every search step of generated natural runs (constraints that thin the ES population included), seen through the "
         "acquisition, ES and hedge seams: the proposal's acquisition value is the minimum over every acquisition value computed "
-        "in that ES call and the proposal is a candidate carrying it; every candidate handed to the acquisition lies in the "
+        "in that ES call and the proposal is a candidate carrying it, and the point the step then evaluates is that proposal; every candidate handed to the acquisition lies in the "
         "mesh-rounded search box and is feasible; <= 1 target call per search step; hedge probabilities finite, sum to 1, each "
         ">= the exploration floor, chosen index valid. (ii) exhaustive rank-selection mask for all 1 <= mu, lambda <= 300 (600 in "
         "the thorough tier): no exception, long enough, every index used for reproduction is a valid parent (mask[k] <= k, "
@@ -28,7 +28,9 @@ ASSUMPTIONS = [
 PROFILE = scenario.profile(maxD=3, extra_budget=(10, 60), cons_x0=("margin",), p_cons=0.45, max_iter_choices=(None,),
                            tol_mesh_choices=(None,), c_classes=("inside", "on_bound", "outside", "hardbox"),
                            # rarely used but supported: a user-supplied annealing schedule for the LCB
-                           extra_opts=(("search_acq_fcn", ({"__callable__": "lcb_schedule", "k": 0.5}, {"__callable__": "lcb_schedule", "k": 2.0}), 0.2),))
+                           extra_opts=(("search_acq_fcn", ({"__callable__": "lcb_schedule", "k": 0.5}, {"__callable__": "lcb_schedule", "k": 2.0}), 0.2),
+                                       # the search mesh follows the poll mesh instead of staying at its initial size
+                                       ("search_size_locked", (False,), 0.25)))
 N = {"quick": 160, "thorough": 3000}
 N_THIN = {"quick": 64, "thorough": 1200}
 THIN_PROFILE = dict(PROFILE, extra_budget=(10, 40))
@@ -97,6 +99,17 @@ def run_oracle(scn, tr):
             idx = np.where(allz == zstar)[0]
             if idx.size and not any(np.array_equal(allx[j], us) for j in idx):
                 v.append(viol("a:proposal-not-the-minimising-candidate", f"{e['cls']}: proposal {us.tolist()} is not a candidate with z={zstar!r}"))
+        # what the search step then evaluates is that proposal (nothing re-rounds or replaces it on the way to the target)
+        ph = e.get("phase")
+        if ph and ph[0] == "search" and vt is not None and us.size == scn["D"]:
+            cl = [c for c in tr.calls if c["phase"] == "search" and c["step"] == ph[1]]
+            if cl:
+                evals += 1
+                xp = np.asarray(vt.inverse_transf(np.atleast_2d(us)), dtype=float).ravel()
+                if not np.allclose(cl[0]["x"], xp, rtol=1e-10, atol=1e-13):
+                    v.append(viol("a:evaluated-point-not-the-proposal", f"{e['cls']}: search step {ph[1]} evaluated {cl[0]['x'].tolist()} but the "
+                                  f"strategy proposed {xp.tolist()} (search mesh {e['search_mesh']})"))
+                labs.append("search:proposal-evaluated")
         # the mesh-rounded box is recomputed here from the transformed hard bounds and the current search mesh
         # (mesh nodes inside [lb, ub]); the box stored by the run is only reported, not trusted
         h_ = e["search_mesh"]
